@@ -25,6 +25,10 @@ var c05Table = map[byte]refmodel.Behaviour{
 	'r': {refmodel.SRedispAbort, refmodel.SProbe, refmodel.SNext, refmodel.SProbe},
 	'z': {refmodel.SAbortSt200, refmodel.SProbe},
 	'D': {refmodel.SSilent, refmodel.SDefault404}, // the built-in not-found responder (last handler of "notfound" chains)
+	'A': {refmodel.SSilent, refmodel.SDefault405}, // the built-in not-allowed responder (last handler of "notallowed" chains)
+	'O': {refmodel.SSilent, refmodel.SDefault200}, // ... answering an OPTIONS request
+	// an aborted handler installs a replacement chain (error pages do) and calls Next: the abort stands
+	'R': {refmodel.SAbort, refmodel.SReplaceChain, refmodel.SProbe, refmodel.SNext, refmodel.SProbe},
 	'e': {refmodel.SAddErr, refmodel.SNext, refmodel.SProbe},
 	'f': {refmodel.SAddErr},
 	'x': {refmodel.SNext, refmodel.SWrite, refmodel.SProbe},    // writes after the rest of the chain returned
@@ -323,6 +327,21 @@ func c05Gen(tier string, emit func(c05Case)) {
 			push(chainShape{N: n, Split: [3]int{n - 1, 0, 0}, Via: "notfound", Beh: b + "D"})
 		})
 	}
+	// an aborted handler that replaces the chain (SetHandlers) at every position of n<=4 chains
+	for n := 1; n <= 4; n++ {
+		for _, sp := range splitsOf(n - 1) {
+			deviations(n, 'q', "R", 1, func(b string) { push(chainShape{N: n, Split: sp, Via: viaFor(sp), Beh: b}) })
+			deviations(n, 'p', "R", 1, func(b string) { push(chainShape{N: n, Split: sp, Via: viaFor(sp), Beh: b}) })
+		}
+	}
+	// ... and around the built-in not-allowed responder (HandleMethodNotAllowed; the path is registered for GET only),
+	// asked with POST (405) and with OPTIONS (200): an aborting middleware decides the status, the responder does not start
+	for n := 2; n <= 4; n++ {
+		vectors("pnqabtsmuz", n-1, func(b string) {
+			push(chainShape{N: n, Split: [3]int{n - 1, 0, 0}, Via: "notallowed", Beh: b + "A"})
+			push(chainShape{N: n, Split: [3]int{n - 1, 0, 0}, Via: "notallowed-options", Beh: b + "O"})
+		})
+	}
 	// a handler that re-dispatches (HandleContext) to a route whose middleware aborts: route-level chains only
 	// (global middleware would run again inside the re-dispatch), exactly one such handler, at every position
 	for n := 2; n <= 5; n++ {
@@ -383,7 +402,7 @@ func c05Run(c c05Case, st *fw.Stats) []fw.Viol {
 		st.Max("max_chain", int64(sh.N))
 	}
 	if st.WantSample() {
-		st.Sample(map[string]any{"chain": c.Shapes[0], "codes": "y=Next,io.WriteString,probe v=io.WriteString,Next x=Next,write,probe e=AddError,Next,probe f=AddError p=plain n=Next q=Next,probe a=probe,Abort,probe b=Abort,probe,Next,probe c=Next,probe,Abort,probe t=AbortThen,probe s=AbortWithStatus,probe m=AbortWithStatus(msg),probe,Next w=write,Next,probe u=SetStatus(201),Next z=AbortWithStatus(200),probe B=Abort,Next,Next,Next,probe F=AbortWithStatus,Flush,probe G=Next,Flush,probe H=SetStatus(201),Flush,Next D=built-in 404 responder r=HandleContext to a route whose middleware aborts,probe,Next,probe"})
+		st.Sample(map[string]any{"chain": c.Shapes[0], "codes": "y=Next,io.WriteString,probe v=io.WriteString,Next x=Next,write,probe e=AddError,Next,probe f=AddError p=plain n=Next q=Next,probe a=probe,Abort,probe b=Abort,probe,Next,probe c=Next,probe,Abort,probe t=AbortThen,probe s=AbortWithStatus,probe m=AbortWithStatus(msg),probe,Next w=write,Next,probe u=SetStatus(201),Next z=AbortWithStatus(200),probe B=Abort,Next,Next,Next,probe F=AbortWithStatus,Flush,probe G=Next,Flush,probe H=SetStatus(201),Flush,Next D=built-in 404 responder R=Abort,SetHandlers(another chain),probe,Next,probe A=built-in 405 responder O=built-in OPTIONS responder r=HandleContext to a route whose middleware aborts,probe,Next,probe"})
 	}
 	return vs
 }
@@ -391,7 +410,7 @@ func c05Run(c c05Case, st *fw.Stats) []fw.Viol {
 var c05Spec = fw.Spec[c05Case]{
 	ID:    "C05",
 	Level: "model_checking",
-	Rule: "complete product: all behaviour vectors over 12 handler behaviours (+ n<=4 over {Next+probe, AbortWithStatus, Abort followed by three more Next calls, AbortWithStatus followed by Flush, Next then Flush, SetStatus then Flush}, and those behaviours as the single deviation of chains of 61..63 handlers) (+ chains of global middleware around the built-in not-found responder) (+ one handler that re-dispatches with HandleContext to an aborting route, at every position of route-level chains n<=5) (+ the n<=3 product and the near-limit chains again on routers with OnError / OnPanic hooks installed and handlers that record errors) (+ the n<=3 product of chains containing an abort behind a pass-through wrapper of c.Resp, on a router that served a hijacking request / a request that aborted and then panicked before, and in debug mode) (+ the n<=3 product of chains containing an abort helper for a caller's writer that refuses every body byte, with and without an OnPanic hook) (plain, Next, Next+probe, SetStatus(201)+Next, Abort before/after/without Next, AbortThen, AbortWithStatus with/without message, write-then-Next) for chains of n<=4 (thorough 5) handlers x every split of the middleware into global/group/route; n=5 and chains near the handler limit (33,34,61,62,63) by deviation bounding (uniform default behaviour, <=d deviating positions at every position); IsAborted() sampled at every entry and around every abort/Next; " +
+	Rule: "complete product: all behaviour vectors over 12 handler behaviours (+ n<=4 over {Next+probe, AbortWithStatus, Abort followed by three more Next calls, AbortWithStatus followed by Flush, Next then Flush, SetStatus then Flush}, and those behaviours as the single deviation of chains of 61..63 handlers) (+ one handler that aborts, installs a replacement chain with SetHandlers and calls Next, at every position of n<=4 chains) (+ chains of global middleware around the built-in not-found responder, and around the built-in not-allowed responder asked with POST and with OPTIONS) (+ one handler that re-dispatches with HandleContext to an aborting route, at every position of route-level chains n<=5) (+ the n<=3 product and the near-limit chains again on routers with OnError / OnPanic hooks installed and handlers that record errors) (+ the n<=3 product of chains containing an abort behind a pass-through wrapper of c.Resp, on a router that served a hijacking request / a request that aborted and then panicked before, and in debug mode) (+ the n<=3 product of chains containing an abort helper for a caller's writer that refuses every body byte, with and without an OnPanic hook) (plain, Next, Next+probe, SetStatus(201)+Next, Abort before/after/without Next, AbortThen, AbortWithStatus with/without message, write-then-Next) for chains of n<=4 (thorough 5) handlers x every split of the middleware into global/group/route; n=5 and chains near the handler limit (33,34,61,62,63) by deviation bounding (uniform default behaviour, <=d deviating positions at every position); IsAborted() sampled at every entry and around every abort/Next; " +
 		"each chain is run through ServeHTTP and compared event by event with a cursor-free chain interpreter; non-trivial = a chain containing an abort",
 	Assume: []string{"chains stay within the documented limit (62 middleware + main handler); global middleware is not counted by any registration check (noted in DESIGN, outside the property)"},
 	Bounds: func(tier string) map[string]any {
